@@ -1148,3 +1148,32 @@ func MutateOp(p *Program, r *rand.Rand, name string) *Mutant {
 	}
 	return nil
 }
+
+// RecolorAll returns a copy of p in which every written type (definitions, signatures,
+// process types, cut annotations) is recoloured to mode m.
+func RecolorAll(p *Program, m Mode) *Program {
+	q := p.Clone()
+	for i := range q.Types {
+		Recolor(q.Types[i].T, m)
+	}
+	re := func(t *Term) {
+		Walk(t, func(x *Term) {
+			if x.Op == "new" && x.Ann != nil {
+				x.Ann = x.Ann.Clone()
+				Recolor(x.Ann, m)
+			}
+		})
+	}
+	for _, f := range q.Funcs {
+		Recolor(f.Ret, m)
+		for j := range f.Params {
+			Recolor(f.Params[j].T, m)
+		}
+		re(f.Body)
+	}
+	for _, pr := range q.Procs {
+		Recolor(pr.T, m)
+		re(pr.Body)
+	}
+	return q
+}
